@@ -506,6 +506,134 @@ namespace
         }
     };
 
+    // ---------- dictionary vocabulary (map_ / reduce): TSD<Int, TS<Int>> ----------
+    using DInt = TSD<Int, TS<Int>>;
+
+    // scripted dictionary source: script=<t>:<k>=<v>,<k>=<v>,-<k>;<t>:...   (-k removes key k)
+    struct DOp
+    {
+        long t, k, v;
+        bool remove;
+    };
+    std::vector<DOp> parse_dscript(const std::string &text)
+    {
+        std::vector<DOp> ops;
+        for (auto &cyc : split(text, ';'))
+        {
+            if (cyc.empty()) { continue; }
+            auto tp = cyc.find(':');
+            long t  = std::stol(cyc.substr(0, tp));
+            for (auto &o : split(cyc.substr(tp + 1), ','))
+            {
+                if (o.empty()) { continue; }
+                if (o[0] == '-') { ops.push_back({t, std::stol(o.substr(1)), 0, true}); }
+                else
+                {
+                    auto eq = o.find('=');
+                    ops.push_back({t, std::stol(o.substr(0, eq)), std::stol(o.substr(eq + 1)), false});
+                }
+            }
+        }
+        return ops;
+    }
+
+    struct VDSrc
+    {
+        static constexpr auto name = "v_dsrc";
+        static void           start(Scalar<"id", Int> id, NodeScheduler sched, NodeView self, DateTime now)
+        {
+            auto ops = parse_dscript(spec_of(id.value()).line.gets("script", ""));
+            long last = -1;
+            for (auto &o : ops)
+            {
+                if (o.t != last && to_dt(o.t) >= now)
+                {
+                    sched.schedule(to_dt(o.t));
+                    log_req(id.value(), self, now, to_dt(o.t));
+                }
+                last = o.t;
+            }
+        }
+        static void eval(Scalar<"id", Int> id, NodeView self, DateTime now, Out<DInt> out)
+        {
+            auto       ops = parse_dscript(spec_of(id.value()).line.gets("script", ""));
+            const long k   = to_k(now);
+            for (auto &o : ops)
+            {
+                if (o.t != k) { continue; }
+                if (o.remove) { static_cast<void>(out.erase(Int{o.k})); }
+                else { out.set(Int{o.k}, Int{o.v}); }
+            }
+        }
+    };
+
+    template <typename TIn>
+    void log_dict(const char *ev, long id, const NodeView &self, DateTime now, const TIn &d)
+    {
+        std::vector<std::pair<long, long>> val, mod;
+        std::vector<long>                  add, rem;
+        for (auto [key, child] : d.valid_items()) { val.emplace_back(static_cast<long>(key.template checked_as<Int>()), static_cast<long>(child.value())); }
+        for (auto [key, child] : d.modified_items())
+        {
+            if (child.valid()) { mod.emplace_back(static_cast<long>(key.template checked_as<Int>()), static_cast<long>(child.value())); }
+        }
+        for (auto [key, child] : d.added_items()) { add.push_back(static_cast<long>(key.template checked_as<Int>())); }
+        for (auto [key, child] : d.removed_items()) { rem.push_back(static_cast<long>(key.template checked_as<Int>())); }
+        std::sort(val.begin(), val.end());
+        std::sort(mod.begin(), mod.end());
+        std::sort(add.begin(), add.end());
+        std::sort(rem.begin(), rem.end());
+        auto pairs = [](const std::vector<std::pair<long, long>> &v) {
+            std::string s = "[";
+            for (size_t i = 0; i < v.size(); ++i)
+            {
+                if (i) { s += ","; }
+                s += "[" + std::to_string(v[i].first) + "," + std::to_string(v[i].second) + "]";
+            }
+            return s + "]";
+        };
+        J(ev).i("id", id).i("g", inst_of(self)).i("t", to_k(now)).raw("val", pairs(val)).raw("mod", pairs(mod)).raw("add", jlist(add)).raw("rem", jlist(rem)).emit();
+    }
+
+    struct VDRec
+    {
+        static constexpr auto name = "v_drec";
+        static void           eval(Scalar<"id", Int> id, In<"d", DInt> d, NodeView self, DateTime now) { log_dict("drec", id.value(), self, now, d); }
+    };
+
+    using DErr = TSD<Int, TS<NodeError>>;
+    struct VDErrRec
+    {
+        static constexpr auto name = "v_derrrec";
+        static void           eval(Scalar<"id", Int> id, In<"d", DErr> d, NodeView self, DateTime now)
+        {
+            for (auto [key, child] : d.modified_items())
+            {
+                if (!child.valid()) { continue; }
+                const auto msg = child.base().value().as_bundle().at("error_msg").template checked_as<Str>();
+                J("kerr").i("id", id.value()).i("g", inst_of(self)).i("t", to_k(now)).i("k", static_cast<long>(key.template checked_as<Int>())).str("msg", std::string{msg}).emit();
+            }
+            for (auto [key, child] : d.removed_items())
+            {
+                J("kerrgone").i("id", id.value()).i("t", to_k(now)).i("k", static_cast<long>(key.template checked_as<Int>())).emit();
+            }
+        }
+    };
+
+    // inside a mapped child: echoes the key (value = key * 100 + x)
+    struct VKeyMix
+    {
+        static constexpr auto name = "v_keymix";
+        static void eval(Scalar<"id", Int> id, In<"key", TS<Int>> key, In<"x", TS<Int>> x, NodeView self, DateTime now, Out<TS<Int>> out)
+        {
+            FnLog log(id.value(), self, now);
+            log.ins({in_rec(key), in_rec(x)});
+            const long v = key.value() * 100 + x.value();
+            out.set(Int{v});
+            log.out(v).emit();
+        }
+    };
+
     using TryIntResult = UnNamedTSB<Field<"exception", TS<NodeError>>, Field<"out", TS<Int>>>;
 
     struct VTryOut
@@ -544,11 +672,14 @@ namespace
         std::vector<P>                           args;
         std::map<long, P>                        ports;     // node id -> output port
         std::map<long, Port<void>>               erased;    // node id -> erased output (try_except results)
+        std::map<long, Port<DInt>>               dports;    // node id -> dictionary output port
+        std::optional<P>                         key;       // the `key` port of a mapped child graph
         std::map<long, std::shared_ptr<void>>    feedbacks; // node id -> feedback handle
     };
 
     P resolve(Env &env, const std::string &ref)
     {
+        if (ref == "key") { return *env.key; }
         if (!ref.empty() && ref[0] == 'a') { return env.args.at(std::stoul(ref.substr(1))); }
         auto it = env.ports.find(std::stol(ref));
         if (it == env.ports.end()) { throw std::logic_error("hgv: unresolved port ref " + ref); }
@@ -584,6 +715,30 @@ namespace
         static P              compose(Wiring &w, P a0, P a1)
         {
             Env env{w, {a0, a1}};
+            return *interpret(env, g_scn->graphs.at("g" + std::to_string(K)));
+        }
+    };
+
+    // mapped children that consume the key: the first parameter must be named "key"
+    template <int K>
+    struct SubGK1
+    {
+        static constexpr auto name = "hgv_subk1";
+        static P              compose(Wiring &w, NamedPort<"key", TS<Int>> key, P a0)
+        {
+            Env env{w, {a0}};
+            env.key = P{key};
+            return *interpret(env, g_scn->graphs.at("g" + std::to_string(K)));
+        }
+    };
+    template <int K>
+    struct SubGK2
+    {
+        static constexpr auto name = "hgv_subk2";
+        static P              compose(Wiring &w, NamedPort<"key", TS<Int>> key, P a0, P a1)
+        {
+            Env env{w, {a0, a1}};
+            env.key = P{key};
             return *interpret(env, g_scn->graphs.at("g" + std::to_string(K)));
         }
     };
@@ -649,7 +804,10 @@ namespace
             const std::string kind = l.pos.at(2);
             NodeSpec         &sp   = spec_of(id);
             std::vector<P>    in;
-            for (auto &r : sp.ins) { in.push_back(resolve(env, r)); }
+            if (kind != "drec" && kind != "map" && kind != "reduce" && kind != "dmerge")
+            {
+                for (auto &r : sp.ins) { in.push_back(resolve(env, r)); }
+            }
             const Int sid{id};
             if (kind == "src") { env.ports.emplace(id, wire<VSrc>(w, sid)); }
             else if (kind == "pass") { env.ports.emplace(id, wire<VPass>(w, sid, in.at(0))); }
@@ -663,6 +821,30 @@ namespace
             else if (kind == "timer") { env.ports.emplace(id, wire<VTimer>(w, sid, Int{l.geti("p", 1)}, Int{l.geti("cnt", 1)})); }
             else if (kind == "throwneg") { env.ports.emplace(id, wire<VThrowNeg>(w, sid, in.at(0))); }
             else if (kind == "rec") { wire<VRec>(w, sid, in.at(0)); }
+            else if (kind == "dsrc") { env.dports.emplace(id, wire<VDSrc>(w, sid)); }
+            else if (kind == "drec") { wire<VDRec>(w, sid, env.dports.at(std::stol(sp.ins.at(0)))); }
+            else if (kind == "keymix") { env.ports.emplace(id, wire<VKeyMix>(w, sid, in.at(0), in.at(1))); }
+            else if (kind == "map")
+            {
+                // in=<dict>[,<broadcast ts>]  g=<slot>  key=0|1  err=0|1
+                const int  k      = static_cast<int>(l.geti("g", 0));
+                const bool keyed  = l.geti("key", 0) != 0;
+                auto       d      = env.dports.at(std::stol(sp.ins.at(0)));
+                const bool bcast  = sp.ins.size() > 1;
+                Port<void> mapped = [&]() -> Port<void> {
+                    if (!keyed && !bcast) { return dispatch_slot<SubG1>(k, [&]<typename G>() { return Port<void>{wire<stdlib::map_>(w, fn<G>(), d)}; }); }
+                    if (!keyed && bcast) { return dispatch_slot<SubG2>(k, [&]<typename G>() { return Port<void>{wire<stdlib::map_>(w, fn<G>(), d, resolve(env, sp.ins.at(1)))}; }); }
+                    if (keyed && !bcast) { return dispatch_slot<SubGK1>(k, [&]<typename G>() { return Port<void>{wire<stdlib::map_>(w, fn<G>(), d)}; }); }
+                    return dispatch_slot<SubGK2>(k, [&]<typename G>() { return Port<void>{wire<stdlib::map_>(w, fn<G>(), d, resolve(env, sp.ins.at(1)))}; });
+                }();
+                auto typed = mapped.as<DInt>();
+                env.dports.emplace(id, typed);
+                if (l.geti("err", 0) != 0)
+                {
+                    Port<DErr> errors = exception_time_series(typed);
+                    wire<VDErrRec>(w, sid, errors);
+                }
+            }
             else if (kind == "sched") { wire<VSched>(w, sid, in.at(0)); }
             else if (kind == "lsrc") { env.ports.emplace(id, wire<LSrc>(w, sid, Int{l.geti("cnt", 2)})); }
             else if (kind == "lpass") { env.ports.emplace(id, wire<LPass>(w, sid, in.at(0))); }
